@@ -321,8 +321,8 @@ int main()
         return 2;
     auto hdr = vp::tokens(line);
     bool fake;
-    // an optional third token (timed=wrap|timed=sat) tells the *model* which timed arithmetic to follow
-    const bool hdrOk = (hdr.size() == 2 || (hdr.size() == 3 && (hdr[2] == "timed=wrap" || hdr[2] == "timed=sat"))) &&
+    // an optional third token (sat=0|sat=1) tells the *model* which timed arithmetic the tree under test has
+    const bool hdrOk = (hdr.size() == 2 || (hdr.size() == 3 && (hdr[2] == "sat=0" || hdr[2] == "sat=1"))) &&
                        hdr[0] == "ptc";
     if (hdrOk && hdr[1] == "clock=fake")
         fake = true;
